@@ -142,6 +142,11 @@ def _worker(part, tier, is_canary):
                 cell.branch(1).add_to_group("g1")
                 cell.branch([2, 4]).add_to_group("g2")
                 cell.branch(0).comp(0).add_to_group("g3")
+                # groups that cover a branch only partially and WITHOUT its first compartment (seeded change C13_b)
+                cell.branch(4).comp([2, 3]).add_to_group("g4")
+                cell.branch(2).loc(1.0).add_to_group("g5")
+                cell.branch(0).add_to_group("g6")
+                cell.branch(3).comp(1).add_to_group("g6")
                 want_nc = list(base)
                 lab = "base=" + str(base) + ";" + ";".join(f"branch({b}).set_ncomp({n})" for b, n in seq)
                 refused = False
@@ -167,7 +172,7 @@ def _worker(part, tier, is_canary):
                 # groups: branch membership unchanged
                 off = np.concatenate([[0], np.cumsum(want_nc)])
                 br_of = lambda rows: sorted({int(np.searchsorted(off, r, side="right") - 1) for r in rows})
-                want_groups = {"g1": [1], "g2": [2, 4], "g3": [0]}
+                want_groups = {"g1": [1], "g2": [2, 4], "g3": [0], "g4": [4], "g5": [2], "g6": [0, 3]}
                 for gname, wb in want_groups.items():
                     gb = br_of(cell.groups[gname]) if len(cell.groups[gname]) else []
                     in_range = all(0 <= r < off[-1] for r in cell.groups[gname])
@@ -268,7 +273,7 @@ def main(tier):
         ref = oc[0] == "ok" and not oc[1]["error"] and any(r["status"] != "proved" for r in oc[1]["results"])
         ck.canary(f"{can[0]}: {can[2][:50]!r} -> {can[3][:50]!r}", ref, oc)
     ck.bounded = {"evaluations": evals, "distinct_nontrivial": cases, "exhaustive": False,
-                  "rule": "hand-built 5-branch cell (parents [-1,0,0,1,1], base ncomp [2,2,3,2,4], per-branch distinct uniform radius/length/capacitance/axial resistivity/channels, three groups): every branch x n in {1,2,3,4} plus 4 two-call sequences (thorough: more n and 9 two-branch sequences); "
+                  "rule": "hand-built 5-branch cell (parents [-1,0,0,1,1], base ncomp [2,2,3,2,4], per-branch distinct uniform radius/length/capacitance/axial resistivity/channels, six groups incl. partial-branch groups without the first compartment): every branch x n in {1,2,3,4} plus 4 two-call sequences (thorough: more n and 9 two-branch sequences); "
                           "SWC files of tests/swc_files: first 4 branches and the last x n in {2,3,4} against read_swc(ncomp=n). A case = one accepted (module, call sequence)"}
     for f in ("jaxley.modules.base.Module.set_ncomp", "jaxley.utils.cell_utils.build_radiuses_from_xyzr", "jaxley.modules.cell.Cell._init_morph_jax_spsolve", "jaxley.modules.cell.Cell._init_morph_jaxley_spsolve"):
         ck.add_function(f, "bounded")
